@@ -197,7 +197,7 @@ def gen_domain_spec(rng, finite_only=False, small=False):
         q = rng.choice([0.25, 0.5])
         return [k, 0.0, q * rng.randint(2, 6), q]
     if k == "qrandint":
-        q = rng.choice([2, 4])
+        q = rng.choice([2, 4, 5])
         return [k, 0, q * rng.randint(1, 4), q]
     if k == "single_choice":
         return ["choice", [rng.choice(["only", 3, 2.5])]]
@@ -318,7 +318,10 @@ def gen_points(rng, spec, space, retype=False):
     for _ in range(rng.randint(1, 4)):
         pt = {}
         for nm in hp:
-            if mode == "bounds" and isinstance(space[nm], (Float, Integer)) and rng.random() < 0.85:
+            from syne_tune.config_space import Quantized
+            if isinstance(space[nm], Integer) and isinstance(space[nm].get_sampler(), Quantized) and rng.random() < 0.5:
+                pt[nm] = rng.randint(space[nm].lower, space[nm].upper)    # any integer of the range is a valid value
+            elif mode == "bounds" and isinstance(space[nm], (Float, Integer)) and rng.random() < 0.85:
                 pt[nm] = rng.choice([space[nm].lower, space[nm].upper])     # exactly ON a domain bound
             elif rng.random() < 0.6:
                 v = space[nm].sample(random_state=np.random.RandomState(rng.randrange(10 ** 6)))
@@ -402,6 +405,16 @@ def true_size(space):
             return None
         n *= k
     return n
+
+
+def reachable(space, config):
+    """can the samplers produce this configuration? (a quantised Integer domain admits every integer of its range,
+    e.g. in points_to_evaluate, but is sampled at multiples of q only; true_size counts the sampled values)"""
+    from syne_tune.config_space import Integer, Quantized
+    for k, d in space.items():
+        if isinstance(d, Integer) and isinstance(d.get_sampler(), Quantized) and config[k] % d.get_sampler().q != 0:
+            return False
+    return True
 
 
 def hp_tuple(space, config):
@@ -576,7 +589,7 @@ def run_rs_case(ctx, case):
             viol = ("repeated_configuration", "suggestions %s" % (tl,))
     if viol is None and restrict is None and not case["allow_dup"] and any(c is None for c in outs):
         tsize = true_size(space)
-        if tsize is None or len({hp_tuple(space, c) for c in got}) < tsize:
+        if tsize is None or len({hp_tuple(space, c) for c in got if reachable(space, as_scheduler_would(space, c))}) < tsize:
             viol = ("none_before_finite_space_exhausted",
                     "None after %d distinct of %s configurations" % (len(got), tsize))
     nontriv = len(got) > len(init) and (len(init) >= 2 or any(o == "(Ok None)" for o in obs) or restrict is not None)
@@ -784,7 +797,8 @@ def make_scheduler(case, space):
     if kind.startswith("hb-"):
         _, typ, searcher = kind.split("-")
         lim = dict(max_resource_attr=mra) if mra else dict(max_t=9)
-        return HyperbandScheduler(space, searcher=searcher, type=typ, resource_attr="epoch",
+        extra = dict(searcher_data=case["searcher_data"]) if case.get("searcher_data") else {}
+        return HyperbandScheduler(space, searcher=searcher, type=typ, resource_attr="epoch", **extra,
                                   grace_period=case.get("grace_period", 1), reduction_factor=3, brackets=2 if searcher == "hypertune" else 1,
                                   search_options=so, **lim, **common)
     if kind == "dehb":
@@ -814,6 +828,7 @@ def run_sched_case(ctx, case):
     running, epoch, new_cfgs, viol = {}, {}, [], None
     scratch_cfgs = []
     n_resume_checked, resumed_bad = 0, False
+    last_res = {}
     next_id, mi, n_sug, none_seen = 0, 0, 0, False
     metrics = case["metrics"]
     sync = kind in ("dehb", "synchb")
@@ -902,10 +917,18 @@ def run_sched_case(ctx, case):
             sch.on_trial_error(tr)
             del running[t]
             continue
+        if op == "finish" and t in last_res:
+            sch.on_trial_complete(tr, dict(last_res[t]))      # the script ends: completed with its last reported result
+            del running[t]
+            continue
         # as the Tuner does: every result goes through on_trial_result; a finished trial is then
         # completed with the result it reported last
-        epoch[t] += 1
-        res = {"m": float(metrics[mi % len(metrics)]), "epoch": epoch[t]}
+        if op == "repeat" and t in last_res:
+            res = dict(last_res[t])                           # the same epoch is reported once more
+        else:
+            epoch[t] += 1
+            res = {"m": float(metrics[mi % len(metrics)]), "epoch": epoch[t]}
+        last_res[t] = dict(res)
         dec = sch.on_trial_result(tr, res)
         if dec == "STOP":
             sch.on_trial_remove(tr)
@@ -928,12 +951,18 @@ def run_sched_case(ctx, case):
     if viol is None:
         # trials started from scratch (PBT's exploit/explore trials are warm-started from a checkpoint and
         # do not come from the searcher's queue of initial points)
-        k = min(len(scratch_cfgs), len(init))
-
         def same(a, b):      # DEHB keeps configurations encoded: decode(encode(x)) may differ from x in the last bits
             if kind == "dehb" and isinstance(a, float) and isinstance(b, float):
                 return a == b or abs(a - b) <= 1e-9 * max(abs(a), abs(b))
             return a == b
+        if kind == "dehb":
+            # DEHB removes initial points which coincide in its encoded representation (equal up to round-off)
+            ded = []
+            for c in init:
+                if not any(all(same(u, v) for u, v in zip(hp_tuple(space, c), hp_tuple(space, d))) for d in ded):
+                    ded.append(c)
+            init = ded
+        k = min(len(scratch_cfgs), len(init))
         if not all(len(x) == len(y) and all(same(u, v) for u, v in zip(x, y)) for x, y in
                    zip([hp_tuple(space, c) for c in scratch_cfgs[:k]], [hp_tuple(space, c) for c in init[:k]])):
             viol = ("initial_points_not_first", "first suggestions %s, expected %s" % (
@@ -944,7 +973,7 @@ def run_sched_case(ctx, case):
             viol = ("repeated_configuration", "suggestions %s" % (tl,))
     if viol is None and none_seen and kind in ("fifo-random", "fifo-bayesopt", "hb-stopping-random"):
         tsize = true_size(space)
-        if tsize is None or len({hp_tuple(space, c) for c in new_cfgs}) < tsize:
+        if tsize is None or len({hp_tuple(space, c) for c in new_cfgs if reachable(space, c)}) < tsize:
             viol = ("none_before_finite_space_exhausted",
                     "None after %d distinct of %s configurations" % (len(new_cfgs), tsize))
     return viol, len(new_cfgs), len(init), none_seen
@@ -1621,6 +1650,30 @@ def run(ctx, replay=None):
                                   num_init_random=50 if kind != "fifo-bayesopt" else 3, max_suggest=12 if kind != "fifo-bayesopt" else 7,
                                   ops=[rng.choice(["suggest", "suggest", "report", "complete"]) for _ in range(40)],
                                   metrics=gen_metrics(rng, 40), directed="quantised_float_bounds"))
+        # quantised integer domains with off-quantum initial points, run until 'nothing left'
+        for via in ("rs", "fifo-random", "fifo-bayesopt"):
+            for _ in range(ctx.n(2, 8)):
+                q = rng.choice([5, 4])
+                spec = [["x", "dom", ["qrandint", 0, 2 * q, q]]] + ([["c", "dom", ["choice", ["a", "b"]]]] if rng.random() < 0.5 else [])
+                offs = [{"x": v} for v in rng.sample([v for v in range(1, 2 * q) if v % q != 0], 3)]
+                if via == "rs":
+                    cases.append(dict(kind="rs", spec=spec, pts=offs, restrict=None, allow_dup=False, debug=False,
+                                      seed=rng.randrange(10 ** 6), ops=["get"] * 14, directed="quantised_int_off_quantum_points"))
+                else:
+                    cases.append(dict(kind="sched", sched=via, spec=spec, pts=offs, retype_trial_configs=False,
+                                      seed=rng.randrange(10 ** 6), num_init_random=2, max_suggest=14,
+                                      ops=["suggest", "complete"] * 16, metrics=gen_metrics(rng, 20),
+                                      directed="quantised_int_off_quantum_points"))
+        # searcher_data='rungs_and_last': a trial reports the same non-rung epoch twice and terminates
+        for kind in ("hb-stopping-bayesopt", "hb-promotion-bayesopt"):
+            for _ in range(ctx.n(3, 10)):
+                spec, size = small_finite_spec(rng)
+                first = rng.choice([["suggest", "report", "repeat", "finish"], ["suggest", "report", "report", "repeat", "finish"]])
+                ops = first + ["suggest", "report", "report", "report", "finish"] * (size + 2)
+                cases.append(dict(kind="sched", sched=kind, spec=spec, pts=[], retype_trial_configs=False,
+                                  seed=rng.randrange(10 ** 6), num_init_random=2, max_suggest=size + 3, ops=ops,
+                                  searcher_data="rungs_and_last", grace_period=3, metrics=gen_metrics(rng, 30),
+                                  directed="rungs_and_last_same_epoch_twice"))
         for _ in range(ctx.n(10, 40)):     # DEHB driven until a 30-configuration space is (almost) used up
             cases.append(dict(kind="sched", sched="dehb", retype_trial_configs=False, seed=rng.randrange(10 ** 6), pts=[],
                               spec=[["a", "dom", ["randint", 0, 5]], ["b", "dom", ["choice", ["0", "1", "2", "3", "4"]]]],
